@@ -22,9 +22,9 @@ from mc.enumprop import pmap
 from mc.monitors import vkey
 
 LEVEL = 'model_checking'
-NAMES = ['W_rec', 'W_look', 'W_sum', 'W_2way']
+NAMES = ['W_rec', 'W_look', 'W_sum', 'W_2way', 'W_trig']
 D = W.depths_for(NAMES, quick=1, thorough=2, overrides={'thorough': {'W_sum': 1}})
-MAX_PER_BUNDLE = {'quick': 150, 'thorough': 2500}
+MAX_PER_BUNDLE = {'quick': 100, 'thorough': 2500}
 MAX_FULL = {'quick': 4, 'thorough': 6}
 
 
@@ -41,7 +41,9 @@ class OrderJobs(Monitor):
     d0 = ctx.rebuild()
     g, e, calls = sched.run_scheduled(d0, ctx.bundle)
     base = sched.observe(d0, g, e)
+    base['graph'] = sched.graph_sig(d0)
     mine = sched.observe(ctx.doc, ctx.group, ctx.exc)
+    mine['graph'] = sched.graph_sig(ctx.doc)
     if base != mine:
       yield (vkey('C06', 'harness/default-schedule-differs', ctx),
              "the wrapper's default order does not reproduce the engine's own run of %r: %s vs %s" % (
@@ -77,7 +79,7 @@ _WORLDS = {}
 
 
 def run_chunk(jobs):
-  out = {'runs': 0, 'violations': [], 'outcomes': set()}
+  out = {'runs': 0, 'violations': [], 'outcomes': set(), 'graph_differs': 0, 'followups': 0}
   for (wname, origin, hist, label, bundle, sc, base) in jobs:
     world = _WORLDS[wname]
     doc = _doc_for(world, origin, hist)
@@ -85,8 +87,17 @@ def run_chunk(jobs):
                          tuple(v[1]) if v[1] is not None else None) for k, v in sc.items()}
     g, e, _calls = sched.run_scheduled(doc, bundle, schedule)
     obs = sched.observe(doc, g, e)
+    base = dict(base)
+    base_graph = base.pop('graph', None)
     out['runs'] += 1
     out['outcomes'].add(json.dumps(obs, sort_keys=True))
+    if obs == base and e is None and base_graph is not None and sched.graph_sig(doc) != base_graph:
+      # same values, different dependency graph: the orders may still diverge later; chain every
+      # follow-up bundle of the alphabet (default order) behind both runs and compare
+      out['graph_differs'] += 1
+      for bad in followups(world, origin, hist, label, bundle, schedule, sc, doc):
+        out['violations'].append(bad)
+      out['followups'] += 1
     if obs != base:
       kind = ('schedule-raises/' + type(e).__name__) if e is not None else (
           'values-differ' if obs.get('dump') != base.get('dump') else 'stored-actions-differ')
@@ -103,6 +114,50 @@ def run_chunk(jobs):
           'world': wname, 'origin': origin, 'history': hist_json, 'schedule': sc, 'count': 1})
   out['outcomes'] = list(out['outcomes'])
   return out
+
+
+MAX_FOLLOWUPS = 40
+_DEFAULT_NEXT = {}
+
+
+def followups(world, origin, hist, label, bundle, schedule, sc, doc_after):
+  inner = getattr(world, 'inner', world)
+  nexts = inner.alphabet(doc_after)[:MAX_FOLLOWUPS]
+  key = (world.name, origin, json.dumps(hist), bundle)
+  if key not in _DEFAULT_NEXT:
+    res = {}
+    for (l2, b2) in nexts:
+      b2 = b2 if isinstance(b2, str) else json.dumps(b2)
+      d = _doc_for(world, origin, hist)
+      d.try_apply(bundle)
+      g2, e2 = d.try_apply(b2)
+      res[l2] = sched.observe(d, g2, e2)
+    if len(_DEFAULT_NEXT) > 16:
+      _DEFAULT_NEXT.clear()
+    _DEFAULT_NEXT[key] = res
+  want = _DEFAULT_NEXT[key]
+  for (l2, b2) in nexts:
+    b2 = b2 if isinstance(b2, str) else json.dumps(b2)
+    d = _doc_for(world, origin, hist)
+    sched.run_scheduled(d, bundle, schedule)
+    g2, e2 = d.try_apply(b2)
+    got = sched.observe(d, g2, e2)
+    if got != want[l2]:
+      strip = __import__('mc.refmodels', fromlist=['x']).strip_numbers
+      detail = ''
+      if 'dump' in got and 'dump' in want[l2]:
+        ref = _doc_for(world, origin, hist)
+        ref.try_apply(bundle)
+        ref.try_apply(b2)
+        detail = '; '.join(H.diff_dumps(ref.dump(), d.dump()))
+      yield {'key': 'C06/later-bundle-differs/%s/%s/%s' % (world.name, strip(label), strip(l2)),
+             'message': "bundle %r under schedule %s gives the same values but a different dependency "
+                        "graph; the next bundle %r (default order) then gives %s instead of %s %s" % (
+                            label, sc, l2, got, want[l2], detail),
+             'world': world.name, 'origin': origin,
+             'history': [[l, json.loads(b)] for (l, b) in hist] + [[label, json.loads(bundle)]],
+             'schedule': sc, 'followup': [l2, json.loads(b2)], 'count': 1}
+      return
 
 
 class WFull(explore.World):
@@ -154,7 +209,7 @@ def full_recalc_jobs(tier):
   """Jobs for the full recalculation of each base document and of small cyclic documents."""
   from mc.props import C18
   jobs = []
-  worlds = [WFull(w) for w in W.make(NAMES + ['W_trig'])]
+  worlds = [WFull(w) for w in W.make(NAMES)]
   worlds += [WFull(w) for w in C18.cyclic_worlds(2 if tier == 'quick' else 3)]
   info = {'full_docs': 0, 'capped_docs': 0}
   for w in worlds:
@@ -163,6 +218,7 @@ def full_recalc_jobs(tier):
     bundle = json.dumps([["Calculate"]])
     g, e, calls = sched.run_scheduled(doc, bundle)
     base = sched.observe(doc, g, e)
+    base['graph'] = sched.graph_sig(doc)
     info['full_docs'] += 1
     n = 0
     for (sc, cap) in sched.single_deviation_schedules(calls, MAX_FULL[tier]):
@@ -191,6 +247,8 @@ def run(tier, report):
   viols = []
   for part in pmap(run_chunk, chunks):
     runs += part['runs']
+    cov['graph_differs'] = cov.get('graph_differs', 0) + part['graph_differs']
+    cov['followup_chains'] = cov.get('followup_chains', 0) + part['followups']
     outcomes |= set(part['outcomes'])
     viols.extend(part['violations'])
   report.merge_violations(viols)
@@ -209,7 +267,7 @@ def run(tier, report):
 def replay(viol):
   H.check_hashseed()
   from mc.props import C18
-  for w in W.make(NAMES + ['W_trig']):
+  for w in W.make(NAMES):
     _WORLDS[w.name] = w
     _WORLDS[w.name + '/full'] = WFull(w)
   for w in C18.cyclic_worlds(3) + C18.cyclic_worlds(2):
@@ -219,6 +277,7 @@ def replay(viol):
   doc = _doc_for(world, viol['origin'], hist[:-1])
   g, e, calls = sched.run_scheduled(doc, hist[-1][1])
   base = sched.observe(doc, g, e)
+  base['graph'] = sched.graph_sig(doc)
   job = (viol['world'], viol['origin'], hist[:-1], hist[-1][0], hist[-1][1], viol['schedule'], base)
   outs = [sorted(v['key'] for v in run_chunk([job])['violations']) for _ in range(2)]
   if outs[0] != outs[1]:
